@@ -44,9 +44,10 @@ type C20Case struct {
 	Target string   `json:"target"`
 	Opts   drv.Opts `json:"opts"`
 	Ops    []string `json:"ops"`
-	Pre    bool     `json:"pre,omitempty"`   // a longer file already exists at the target path
-	V1Off  bool     `json:"v1off,omitempty"` // the caller passes WriteAsCarV1(false) explicitly (last option)
-	Roots  string   `json:"roots,omitempty"` // kit root set; "" = "a"
+	Pre    bool     `json:"pre,omitempty"`    // a longer file already exists at the target path
+	V1Off  bool     `json:"v1off,omitempty"`  // the caller passes WriteAsCarV1(false) explicitly (last option)
+	Roots  string   `json:"roots,omitempty"`  // kit root set; "" = "a"
+	FailAt int      `json:"failat,omitempty"` // family failing-close: the stream's FailAt-th Write (and every later one) fails
 }
 
 var c20Ops = []string{"put:a", "put:b", "has:a", "cb", "cb1", "close", "has:b"}
@@ -196,6 +197,10 @@ func c20Fire(list []c20Cb, log []string, n int, samePut bool) ([]c20Cb, []string
 
 func runC20(c any, x *kit.Ctx) {
 	cs := c.(C20Case)
+	if cs.FailAt > 0 || cs.Target == "path-badcodec" {
+		runC20Fail(cs, x)
+		return
+	}
 	rootSet := cs.Roots
 	if rootSet == "" {
 		rootSet = "a"
@@ -698,6 +703,7 @@ func genC20(tier string, emit func(any)) {
 		}
 		rec(nil)
 	}
+	genC20Fail(tier, emit)
 }
 
 func init() {
@@ -712,7 +718,7 @@ func init() {
 			"blocks {Put a/identity i/empty e/non-CID key, Has a/i/e, OnPut(once), Close} x {path, plain stream, caller-opened file as stream (io.WriterAt)} x {default, StoreIdentityCIDs, CARv1, duplicates, explicit WriteAsCarV1(false) incl. on a plain stream where every Put must fail}; " +
 			"bwo {BlockWriteOpener open+write+commit, open a, open b, commit, Put a/b, Has a, OnPut x2, Close}; " +
 			"failing-open {Put a/b/non-CID, Has, OnPut x2, Close, fix} x {parent directory missing, path is a directory} (fix removes the obstacle); " +
-			"reentrant {OnPut(always/once) of a callback that registers a once-callback, OnPut x2, Put a/b, Close}; roots (core alphabet) x root sets {a b, nil, empty, a a}. " +
+			"reentrant {OnPut(always/once) of a callback that registers a once-callback, OnPut x2, Put a/b, Close}; roots (core alphabet) x root sets {a b, nil, empty, a a}; failing-close {Put a/b, Has a, OnPut x2, Close} at depth 5/6 x {stream whose 1st..4th Write and all later ones fail, path target with an index codec that cannot be written}: whatever Close returns, every later Has/Put/Close gives ErrClosed and no callback fires. " +
 			"Oracle: differential against a storage.NewWritable constructed at the first Put that can construct it and driven with the same puts (bytes after every step, Put/Has error-ness and Has value); before that no file, no change in the target's directory, zero Write/WriteAt calls on the stream; " +
 			"callback log = once per non-closed Put in registration order, once-callbacks exactly once (a callback registered from a callback may join the running or the next Put); " +
 			"ErrClosed from Has/Put/commit/Close after Close; recorded as outcome classes only (documented, but not part of the statement): output observed inside a callback equals the output before the Put, caller's stream never closed, no descriptor of the target left after Close; non-trivial = sequence in which output started and a callback fired",
